@@ -19,9 +19,13 @@
 (*           int d_c(x^a y^b) dA (equal to the exact boundary integral by DivX / DivY)        *)
 (*      divu the same with the field given as nodal values (1-D shape functions of order p)   *)
 (*      divs Surface.integrate_function_on_surface (linear elements)                          *)
-(*  kind "gauss" c = g1d : create_quadrature_rule_1D(d) on x^n against 1/(n+1)   mk[n+1]      *)
+(*  kind "gauss" c = g1d : create_quadrature_rule_1D(d) (m = "std") and                      *)
+(*      create_padded_quadrature_rule_1D(d) (m = "padded"), d = 0..25, on x^n against 1/(n+1) *)
+(*      mk[n+1]                                                                               *)
+(*  an event with m = "(all)" is the same observation on the block / side set of ALL elements *)
 (*  kind "oracle" c = orc : the integers the harness used as oracle for a lattice mesh,       *)
-(*      rows <<a, b, vs, hasax, ax, ex, ey>>, recomputed here in exact arithmetic             *)
+(*      rows <<a, b, vs, hasax, ax, ex, ey>>, recomputed here in exact arithmetic (degree <= 3,*)
+(*      shifts 0 and 3; every emitted integer is also compared with the mirror in Python)     *)
 (* A mask is the OR of the three-valued comparison codes LT = 1, EQ = 2, GT = 4 (7 = not      *)
 (* finite) of all evaluations in the group; EQ = within the rounding allowance stated in      *)
 (* checks/c03.py (1e-11 of the sum of the absolute contributions).                            *)
